@@ -7,7 +7,11 @@ A case is {"kind": "raw", "rule", "prefix", "ic", "fkey", "rows"} (compile_row_r
 patching._attrs_to_regexp, patching._make_reverse) or {"kind": "book", "file", "hw", "idx",
 "rev": bool, "fkey", "rows"} (the regexps stored inside the rulebook compiled by the real
 compile_patching_text / compile_ordering_text / compile_deploying_text, plus the ACL and
-implicit compilers on the same row).
+implicit compilers on the same row) or {"kind": "text", "vendor", "raw_p", "raw_a", "raw_o",
+"fkey", "rows"}: one rule LINE (irregular spacing, %params) through the rule-text entry points
+compile_patching_text / compile_acl_text / compile_ordering_text, i.e. through
+syntax.parse_text / _parse_raw_rule; what is reported are the regexps / the reverse template
+stored in the compiled rulebooks.
 """
 import os
 import re
@@ -172,7 +176,43 @@ def op_list():
     return {"rules": res, "files_without_hw": unknown}
 
 
+def _matches(regexp, rows):
+    return [None if m is None else _groups(m) for m in (regexp.match(r) for r in rows)]
+
+
+def _single(d, what):
+    if len(d) != 1:
+        raise ValueError("%s: %d rules compiled from one line" % (what, len(d)))
+    return next(iter(d.items()))
+
+
+def run_text(c):
+    """one rule line through the three rule-text compilers"""
+    vendor, rows = c["vendor"], c["rows"]
+    pb = rb_patching.compile_patching_text(c["raw_p"] + "\n", vendor)
+    _, prule = _single({**pb["local"], **pb["global"]}, "patching")
+    pa = prule["attrs"]
+    out = {"patch": _apply(pa["regexp"], pa["reverse"], c["fkey"], rows)}
+    ab = rb_acl.compile_acl_text(c["raw_a"] + "\n", vendor)
+    aid, arule = _single({**ab["local"], **ab["global"]}, "acl")
+    out["acl_id"] = aid
+    out["acl_d"] = _matches(arule["attrs"]["direct_regexp"], rows)
+    out["acl_r"] = _matches(arule["attrs"]["reverse_regexp"], rows)
+    ob = rb_ordering.compile_ordering_text(c["raw_o"] + "\n", vendor)
+    _, orule = _single(ob, "ordering")
+    out["ord_d"] = _matches(orule["attrs"]["direct_regexp"], rows)
+    out["ord_r"] = _matches(orule["attrs"]["reverse_regexp"], rows)
+    out["patterns"] = [pa["regexp"].pattern, arule["attrs"]["reverse_regexp"].pattern,
+                       orule["attrs"]["reverse_regexp"].pattern]
+    return out
+
+
 def run_case(c):
+    if c["kind"] == "text":
+        try:
+            return run_text(c)
+        except Exception as e:  # noqa
+            return {"exc": type(e).__name__ + ": " + str(e)[:200]}
     if c["kind"] == "raw":
         regexp = rb_patching._attrs_to_regexp({"row": c["rule"], "params": {"ignore_case": c["ic"]}})
         tmpl = rb_patching._make_reverse(c["rule"], c["prefix"], flags=regexp.flags)
